@@ -97,7 +97,17 @@ def run_accept(job, res):
         eng = mk(flavour, prefix, "out")
         for topic in candidate_topics(rng, prefix, job["rand"]):
             want = oracle_accepts(prefix, topic)
-            got = received(eng, topic, "1", rng.choice([0, 1, 2]))
+            qos = rng.choice([0, 1, 2])
+            got = received(eng, topic, "1", qos)
+            if want and got[0] == "line":
+                # acceptance is a function of the topic alone: the same message again (a switch pressed twice, a command
+                # repeated) is accepted again, whatever was delivered before and with whatever qos
+                again = received(eng, topic, "1", qos)
+                res.count("repeated_deliveries")
+                if again[0] != "line":
+                    res.violation(f"acceptance:repeat-{'raises' if again[0] == 'raised' else 'dropped'}:qos={min(qos, 1)}",
+                                  f"in_prefix {prefix!r}: topic {topic!r} (qos {qos}) delivered a second time was {again[0]}",
+                                  {"kind": "accept", "in_prefix": prefix, "topic": topic, "flavour": flavour})
             res.evals += 1
             case = {"kind": "accept", "in_prefix": prefix, "topic": topic, "flavour": flavour}
             shape = ("empty" if prefix == "" else "looks-like-levels" if any(ch.isdigit() for ch in prefix) else "plain",
@@ -160,6 +170,11 @@ def run_roundtrip(job, res):
         if got[0] != "line" or got[1].rstrip("\n") != cmd:
             res.violation(f"roundtrip-differs:{'dropped' if got[0] != 'line' else cat}",
                           f"prefix {P!r}: {cmd!r} -> ({topic!r}, {payload!r}, qos {qos}) -> {got[1] if got[0] == 'line' else None!r}", case)
+        else:
+            again = received(B, topic, payload, qos)
+            if again[0] != "line" or again[1].rstrip("\n") != cmd:
+                res.violation(f"roundtrip-differs:second-delivery-{'dropped' if again[0] != 'line' else cat}",
+                              f"prefix {P!r}: {cmd!r} published twice, the second delivery (qos {qos}) gave {again[1] if again[0] == 'line' else again[0]!r}", case)
         res.count("roundtrips")
         if P or p:
             res.nontrivial(("rt", "empty" if P == "" else "digits" if any(ch.isdigit() for ch in P) else "plain", P.count("/"), t, a, cat))
